@@ -78,6 +78,7 @@ fn main() {
                 "frag" => seq::Profile::Frag,
                 "crashysparse" => seq::Profile::CrashySparse,
                 "sparse" => seq::Profile::Sparse,
+                "grow" => seq::Profile::Grow,
                 _ => seq::Profile::General,
             };
             let nops: usize = m.get("ops").and_then(|s| s.parse().ok()).unwrap_or(40);
